@@ -13647,6 +13647,11 @@ func (p *parser) visitExprInOut(expr js_ast.Expr, in exprIn) (js_ast.Expr, exprO
 	case *js_ast.ENewTarget:
 		if !p.fnOnlyDataVisit.isNewTargetAllowed {
 			p.log.AddError(&p.tracker, e.Range, "Cannot use \"new.target\" here:")
+		} else if p.fnOnlyDataVisit.shouldReplaceThisWithInnerClassNameRef {
+			// The value of "new.target" in a static class field initializer or in a
+			// static block is always "undefined". Like "this" and "super", it won't
+			// be valid outside the class body when this code is moved there.
+			return js_ast.Expr{Loc: expr.Loc, Data: js_ast.EUndefinedShared}, exprOut{}
 		}
 
 	case *js_ast.EString:
